@@ -18,3 +18,28 @@ func Harness_C20_server_discipline() {
 	verifAssert("C20.server-update-applied", name == "q" && minLength != 0 && s.GetCache() == "b")
 	verifReach("C20.server-discipline.end")
 }
+
+// What a getter hands to a request is a snapshot: a reload that happens while the request is still
+// using it (the getters release the lock before the value is used: the proxy iterates the location
+// names after GetLocations() returned) must not change it in place.  A later Update therefore
+// publishes new values and never writes into the old ones.
+func Harness_C20_server_snapshots() {
+	s := NewServer(ServerOption{Addr: ":80", Cache: "a", Locations: []string{"l1", "l2"}})
+	snap := s.GetLocations()
+	keep := append([]string{}, snap...)
+	lists := [][]string{{}, {"x1"}, {"x1", "x2"}, {"x1", "x2", "x3"}}
+	newLocs := lists[verifChoice("newLen", len(lists))]
+	s.Update(ServerOption{Addr: ":80", Cache: "b", Locations: newLocs})
+	same := len(snap) == len(keep)
+	for i := 0; same && i < len(keep); i++ {
+		same = snap[i] == keep[i]
+	}
+	verifAssert("C20.locations-handed-to-a-request-survive-a-reload", same)
+	cur := s.GetLocations()
+	pub := len(cur) == len(newLocs)
+	for i := 0; pub && i < len(newLocs); i++ {
+		pub = cur[i] == newLocs[i]
+	}
+	verifAssert("C20.reload-publishes-the-new-locations", pub)
+	verifReach("C20.server-snapshots.end")
+}
